@@ -258,6 +258,24 @@ func makePool(t *core.Tape, n int, rich bool) []poolItem {
 				shape += "~"
 			}
 		}
+		// members without an id inside a list property: what every Mastodon note carries (hashtags,
+		// mentions, emoji under "tag"; property/value pairs under "attachment"). The item itself has
+		// its identity; what it holds must not keep it from being found again
+		if rich && t.Bool(1, 6) {
+			if rv := reflect.ValueOf(it); rv.Kind() == reflect.Pointer && rv.Elem().Kind() == reflect.Struct {
+				for _, fn := range []string{"Tag", "Attachment"}[t.Draw(2):] {
+					if f := rv.Elem().FieldByName(fn); f.IsValid() && f.CanSet() && f.Type() == reflect.TypeOf(ap.ItemCollection(nil)) {
+						l := ap.ItemCollection{&ap.Object{Type: ap.ObjectType, Name: ap.DefaultNaturalLanguageValue("#tag" + fmt.Sprint(i))}}
+						if t.Bool(1, 2) {
+							l = append(l, &ap.Object{Type: ap.NoteType, Content: ap.DefaultNaturalLanguageValue("value")})
+						}
+						f.Set(reflect.ValueOf(l))
+						shape += "+idless-members"
+						break
+					}
+				}
+			}
+		}
 		pool = append(pool, poolItem{it: it, id: string(it.GetLink()), shape: shape})
 	}
 	return pool
